@@ -161,28 +161,42 @@ def _impls(repo, families, method):
     return out
 
 
+def _check_all(R, repo, families, method, spec):
+    """every distinct implementation against its reference, plus: every implementation that HAS a reference still exists
+    (a deleted override silently hands the family the formula of its base class)"""
+    for rel, cn in _impls(repo, families, method):
+        _check_sig(R, repo, rel, cn, method, spec)
+    byname = {cn: rel for rel, cn in families}
+    for key in sorted(spec):
+        owner, meth = key.rsplit('.', 1)
+        if meth != method or owner not in byname:
+            continue
+        ci = repo.cls(byname[owner], owner)
+        if meth not in ci.methods:
+            r = repo.resolve(ci, meth)
+            inh = f'{r[0].name}.{meth}' if r else 'nothing'
+            R.bad(f'{key} :: the implementation the reference signature describes is defined by {owner}', f'{byname[owner]}:{owner}', f'{owner} overrides {meth}() (its formula differs from the base class)', f'{owner} now inherits {inh}')
+
+
 ALL_SPECD = sw.QD_SERIAL + sw.QD_MPI + sw.QD_DAE + sw.SECOND_ORDER + sw.RK
 
 
 @rule('C02', 'C02.R1', 'integrate() returns dt*Q*F(U): normal-form signature of every implementation', floor=9)
 def r1(ctx, R):
     spec = _spec()
-    for rel, cn in _impls(ctx.repo, ALL_SPECD, 'integrate'):
-        _check_sig(R, ctx.repo, rel, cn, 'integrate', spec)
+    _check_all(R, ctx.repo, ALL_SPECD, 'integrate', spec)
 
 
 @rule('C02', 'C02.R2', 'update_nodes(): known terms u0 + dt(Q-QD)F(U^k) + tau, forward substitution, solve factor, f re-evaluated from the new u', floor=13)
 def r2(ctx, R):
     spec = _spec()
-    for rel, cn in _impls(ctx.repo, ALL_SPECD, 'update_nodes'):
-        _check_sig(R, ctx.repo, rel, cn, 'update_nodes', spec)
+    _check_all(R, ctx.repo, ALL_SPECD, 'update_nodes', spec)
 
 
 @rule('C02', 'C02.R4', 'compute_end_point(): copy of the last node | u0 + dt*sum(w_m f_m) (+tau) exactly as configured', floor=11)
 def r4(ctx, R):
     spec = _spec()
-    for rel, cn in _impls(ctx.repo, ALL_SPECD, 'compute_end_point'):
-        _check_sig(R, ctx.repo, rel, cn, 'compute_end_point', spec)
+    _check_all(R, ctx.repo, ALL_SPECD, 'compute_end_point', spec)
 
 
 @rule('C02', 'C02.R5', 'zero padding of qmat coefficients and triangularity assertions', floor=6)
@@ -500,3 +514,9 @@ def r10(ctx, R):
                             R.ok(f'{ci.name}.{name} :: eval_f(u[{k}], ..) uses the time of that stage', w, found=f'nodes[{mt.group(1)}]')
                         continue
                     R.check(diff == want, f'{ci.name}.{name} :: eval_f(u[{k}], ..) uses the time of that node', w, f'nodes[{k} - 1]' if not tableau else f'nodes[{k}] (tableau nodes carry a leading 0)', f'nodes[{mt.group(1)}]')
+
+
+@rule('C02', 'C02.R11', 'the sweep uses the preconditioner that was NAMED: the generator cached on the sweeper is reused only when the requested name is one of the aliases of exactly that generator class (generator classes inherit from each other, so an isinstance test would hand out the subclass matrix; shared with C20.R9)', floor=2)
+def r11(ctx, R):
+    from . import c20
+    c20.qdelta_cache(ctx, R)
